@@ -135,10 +135,13 @@ def one(item, slot, env):
                         shutil.copytree(os.path.join(d, f), os.path.join(tmp, f))
                 cmd = ['bash', src[0], binp] if src[0].endswith('.sh') else [binp, src[0]]
                 rc, out, err = sh(cmd, cwd=tmp, timeout=180, env=dict(os.environ, BIN=binp, YAREL=binp))
-                want = open(exp).read().strip()
-                norm = lambda x: re.sub(r'0x[0-9a-f]{6,}', '0xADDR', x).strip()
-                res[key + prof] = norm(want) in (norm(out), norm(out + err), norm(out + '\n' + err), norm(out + err + '\n--exit %s' % rc))
-                res[key.replace('matches', 'out') + prof] = (out + '\n--stderr--\n' + err)[-600:] + '\n--exit %s' % rc
+                def lines(x):
+                    return [l.strip() for l in re.sub(r'0x[0-9a-f]{6,}', '0xADDR', x).splitlines() if l.strip()]
+                want = lines(open(exp).read())
+                want2 = [l for l in want if not re.match(r'^[-=\[( ]*exit', l)]
+                cands = [lines(out), lines(out + '\n' + err), lines(out + '\n--exit %s' % rc), lines(out + '\n' + err + '\n--exit %s' % rc)]
+                res[key + prof] = want in cands or want2 in cands[:2]
+                res[key.replace('matches', 'out') + prof] = (out + '\n--stderr--\n' + err)[-1500:] + '\n--exit %s' % rc
             finally:
                 shutil.rmtree(tmp, ignore_errors=True)
     differs = []
